@@ -67,6 +67,9 @@ def pool():
     d = copy.deepcopy(b); d["users"] = d["users"][::-1]; P["revusers"] = (d, True, True)
     d = copy.deepcopy(b); d["users"][0] = {"name": "admin", "scopes": ["s1"]}; P["bareadmin"] = (d, True, True)
     d = copy.deepcopy(b); d["secrets"] = d["secrets"][1:]; P["onesecret"] = (d, True, True)
+    # a prefix (and with it a scope) disappears altogether / a scope keeps its name but moves to other prefixes
+    d = copy.deepcopy(b); d["secrets"] = [sec("s2", "key-two", ["10.2.0.0/16"])]; P["dropprefix"] = (d, True, True)
+    d = copy.deepcopy(b); d["secrets"] = [sec("s1", "key-one", ["10.1.200.0/24"]), sec("s2", "key-two", ["10.2.0.0/24"])]; P["moved"] = (d, True, True)
     d = copy.deepcopy(b); d["secrets"] = d["secrets"][::-1]; d["users"].append({"name": "dave", "scopes": ["s1"]}); P["revsecrets"] = (d, True, True)
     d = copy.deepcopy(b); d["users"][0]["groups"] = []; d["users"][0]["commands"] = []; d["prefix_deny"] = ["10.2.0.0/24"]; P["changed"] = (d, True, True)
     # documents that parse and pass the minimum-content check but from which no scope can be built
@@ -100,7 +103,7 @@ def collect(ctx, prop):
     with open(os.path.join(ctx.specdir(), cfg), "w") as f:
         f.write("SPECIFICATION Spec\nCONSTANTS\n  Docs = {%s}\n  Parses = {%s}\n  MinOK = {%s}\n  MaxLoads = %d\n  ChanCap = 1\nINVARIANTS ReloadEqualsFresh PublishedMatchesHistory PipelineExact DrainedEqualsFresh\nPROPERTIES PublishedOnlyGrows EventuallyInForce\nACTION_CONSTRAINT Emit\nCHECK_DEADLOCK FALSE\n"
                 % (", ".join('"%s"' % i for i in ids), ", ".join('"%s"' % i for i in parses), ", ".join('"%s"' % i for i in minok), depth))
-    emit = ctx.path("emit.csv")
+    emit = ctx.path("emit-reload.csv")
     r0 = ctx.tlc_ok("MC_Reload", cfg=cfg, env={"EMIT_FILE": emit}, workers=4)
     hists = [json.loads(x) for x in sorted({json.dumps(h) for h in emitted_json_lines(emit)})]
     ctx.log("MC_Reload: %d states, %d histories emitted" % (r0["distinct"], len(hists)))
@@ -108,7 +111,7 @@ def collect(ctx, prop):
         # depth-4 histories, sampled
         hists += [[rng.choice(ids) for _ in range(4)] for _ in range(3000)]
     H = []
-    probes = ["10.1.9.5", "10.1.0.5", "10.2.0.5", "10.2.0.200", "11.0.0.1", "192.168.1.1", "::ffff:10.1.9.9"]
+    probes = ["10.1.9.5", "10.1.0.5", "10.1.200.1", "10.2.0.5", "10.2.0.200", "10.2.9.9", "11.0.0.1", "192.168.1.1", "::ffff:10.1.9.9"]
     for n, h in enumerate(hists):
         for fmt in ("yaml", "json"):
             via = "load" if (n % 7 == 0) else "unmarshal"
